@@ -187,6 +187,12 @@ type written struct {
 	commit    event
 }
 
+// chanOp is a CreateChannel (create) or DeleteChannel call that reported success.
+type chanOp struct {
+	create bool
+	ev     event
+}
+
 type deleted struct {
 	a, b int64
 	keys []uint32
@@ -242,6 +248,7 @@ func run(p Plan, rep *kit.Report) error {
 	var mu sync.Mutex
 	writes := map[int][]*written{} // by task index
 	var deletes []deleted
+	chanOps := map[uint32][]chanOp{}
 	var fatal error
 	fail := func(e error) {
 		mu.Lock()
@@ -468,18 +475,38 @@ func run(p Plan, rep *kit.Report) error {
 				}
 			}(tk)
 		case "chan":
+			// create / delete of channels outside the groups. Tasks of the same group share a
+			// key, so creates and deletes of one channel race with each other; every call that
+			// reports success is recorded with its invoke/return ticks.
 			wg.Add(1)
 			go func(ti int, tk Task) {
 				defer wg.Done()
-				key := uint32(100 + ti)
+				key := uint32(100 + tk.Group%2)
 				for i := 0; i < tk.Iter; i++ {
-					// failures are reported to the caller and therefore have no effect to account
-					// for (e.g. DeleteChannel is refused while a GC pass holds the channel)
-					if cerr := db.CreateChannel(ctx, cesium.Channel{Key: key, Name: fmt.Sprint("tmp", key), DataType: telem.TimeStampT, IsIndex: true}); cerr != nil {
-						rep.Class("create-channel-refused")
+					ev := event{invoke: tick()}
+					if (i+ti)%2 == 0 {
+						cerr := db.CreateChannel(ctx, cesium.Channel{Key: key, Name: fmt.Sprint("tmp", key), DataType: telem.TimeStampT, IsIndex: true})
+						ev.ret = tick()
+						if cerr != nil {
+							rep.Class("create-channel-refused")
+							continue
+						}
+						mu.Lock()
+						chanOps[key] = append(chanOps[key], chanOp{create: true, ev: ev})
+						mu.Unlock()
+					} else {
+						derr := db.DeleteChannel(key)
+						ev.ret = tick()
+						if derr != nil {
+							rep.Class("delete-channel-refused")
+							continue
+						}
+						mu.Lock()
+						chanOps[key] = append(chanOps[key], chanOp{ev: ev})
+						mu.Unlock()
 					}
-					if derr := db.DeleteChannel(key); derr != nil {
-						rep.Class("delete-channel-refused")
+					if tk.Yield > 0 && i%tk.Yield == 0 {
+						runtime.Gosched()
 					}
 				}
 			}(ti, tk)
@@ -654,6 +681,44 @@ func run(p Plan, rep *kit.Report) error {
 		}
 		return nil
 	}
+	// ---------------- channels created / deleted concurrently: the final state must be the
+	// effect of an operation that no other successful operation on the key strictly follows,
+	// an existing channel must be usable, and the reopened database must agree
+	chanExists := map[uint32]bool{}
+	for key, ops := range chanOps {
+		mayExist, mayBeGone := false, false
+		for i, o := range ops {
+			last := true
+			for j, q := range ops {
+				if i != j && q.ev.invoke > o.ev.ret {
+					last = false
+				}
+			}
+			if last {
+				mayExist = mayExist || o.create
+				mayBeGone = mayBeGone || !o.create
+			}
+		}
+		_, rerr := db.RetrieveChannel(ctx, key)
+		exists := rerr == nil
+		chanExists[key] = exists
+		if exists && !mayExist {
+			_ = db.Close()
+			return kit.Fail("deleted-channel-still-present", "channel %d exists after the run although every successful operation that nothing follows is a DeleteChannel (%d successful operations)", key, len(ops))
+		}
+		if !exists && !mayBeGone {
+			_ = db.Close()
+			return kit.Fail("created-channel-missing", "channel %d does not exist after the run although every successful operation that nothing follows is a CreateChannel (%d successful operations)", key, len(ops))
+		}
+		if exists {
+			if werr := db.WriteSeries(ctx, key, telem.TimeStamp(7), telem.NewSeriesV(telem.TimeStamp(7), telem.TimeStamp(8))); werr != nil {
+				_ = db.Close()
+				return kit.Fail("created-channel-unusable", "channel %d exists after concurrent CreateChannel/DeleteChannel calls that all reported success or failure, but writing to it fails: %v", key, werr)
+			}
+			rep.Class("concurrently-created-channel-usable")
+		}
+		rep.Class("channel-create-delete-raced")
+	}
 	if verr := verify(db, "in memory after the run"); verr != nil {
 		// Characterise the failure for the signature: does the persisted state (after
 		// close and reopen) hold the right content, and did a GC pass run concurrently?
@@ -686,6 +751,18 @@ func run(p Plan, rep *kit.Report) error {
 	defer db2.Close()
 	if verr := verify(db2, "after close and reopen"); verr != nil {
 		return verr
+	}
+	for key, was := range chanExists {
+		_, rerr := db2.RetrieveChannel(ctx, key)
+		if (rerr == nil) != was {
+			return kit.Fail("channel-existence-changed-by-reopen", "channel %d: exists=%v before Close, exists=%v after reopen (created and deleted concurrently during the run)", key, was, rerr == nil)
+		}
+		if was {
+			got, gerr := cx.SideContent(ctx, db2, key)
+			if gerr != nil || len(got) != 2 || got[0] != 7 || got[1] != 8 {
+				return kit.Fail("created-channel-unusable", "channel %d: the two samples written after the run read back as %v (err %v) after reopen", key, got, gerr)
+			}
+		}
 	}
 	// non-trivial: conflicting or same-channel operations overlapped in real time
 	overlap := false
